@@ -278,3 +278,49 @@ def run(ctx, rep) -> None:
     after = [c for c in _calls(hm.node, "mark_seen")] + [c for c in _calls(hm.node, "mark_message_processed")]
     handle_line = min((c.lineno for c in _calls(hm.node, "handle")), default=0)
     rep.check(len(after) == 2 and all(c.lineno > handle_line for c in after), "C09.R4", "processor records the id after the handler returned", "mark_seen + store.mark_message_processed after handler.handle", hm.file, handle_line, disc="post-mark")
+    _retention_rule(ctx, rep)
+
+
+def _retention_rule(ctx, rep) -> None:
+    """The retention sweep of processed_messages removes a record only when it is older than the retention. The comparison is a
+    TEXT comparison in SQLite: it is meaningful only when both sides have the same textual format, or both are normalised
+    through datetime(). processed_at is written as datetime('now', ...) = 'YYYY-MM-DD HH:MM:SS'; an ISO cutoff ('...T...+00:00')
+    compared as a string makes every record of the cutoff's calendar day look older than the cutoff."""
+    import re
+    from .. import sqlshape
+    prog = ctx.prog
+    rep.rule("C09.R5", "the retention sweep compares processed_at and its cutoff in one format (both through datetime(), or both in the format the column is written in): no record younger than the retention is deleted")
+    stmts = [s for s in sqlshape.statements(prog) if sqlshape.is_sqlite(s)]
+    writers = [s for s in stmts if s.kind == "INSERT" and "processed_messages" in s.table and "processed_at" in s.cols]
+    sweeps = [s for s in stmts if s.kind == "DELETE" and "processed_messages" in s.table and any("processed_at" in c for c in s.where)]
+    if not writers or not sweeps:
+        raise AnalysisError("processed_messages: writer INSERT / retention DELETE not found")
+
+    def fmt_of_value(v: str, params: dict) -> str:
+        v = v.strip().lower()
+        if v.startswith("datetime(") or v.startswith("current_timestamp"):
+            return "sqlite"
+        m = re.match(r"[:%]\(?(\w+)\)?s?$", v)
+        pv = str(params.get(m.group(1), "")) if m else ""
+        if "isoformat" in pv:
+            return "iso"
+        if "strftime" in pv and "%Y-%m-%d %H:%M:%S" in pv:
+            return "sqlite"
+        return "unknown"
+
+    wf = {fmt_of_value(s.vals[s.cols.index("processed_at")], s.params) for s in writers}
+    for s in sweeps:
+        cond = next(c for c in s.where if "processed_at" in c)
+        m = re.match(r"(.+?)\s*(<=|<)\s*(.+)$", cond)
+        if not m:
+            rep.fail("C09.R5", f"{s.func.qualname}: retention comparison", f"`{cond}` is not of the form processed_at < cutoff", s.file, s.line, disc="retention-shape")
+            continue
+        lhs, rhs = m.group(1).strip(), m.group(3).strip()
+        both_norm = lhs.startswith("datetime(") and rhs.startswith("datetime(")
+        rf = fmt_of_value(rhs, s.params)
+        same = (not lhs.startswith("datetime(")) and len(wf) == 1 and rf in wf and rf != "unknown"
+        ok = both_norm or same
+        rep.check(ok, "C09.R5", f"{s.func.qualname}: processed_at and the cutoff are compared in one format", f"`{cond}`; column written as {sorted(wf)}, cutoff is {rf}" + ("" if ok else
+                  ": a TEXT comparison of 'YYYY-MM-DD HH:MM:SS' with an ISO 'YYYY-MM-DDTHH:MM:SS+00:00' cutoff - every record of the cutoff's calendar day sorts below it (' ' < 'T') and is swept whatever its age; "
+                  "a message handled seconds before a sweep just after midnight loses its record and is handled again on redelivery"), s.file, s.line, disc="retention-format")
+    rep.floor("retention sweeps of processed_messages", len(sweeps), 1)
